@@ -16,7 +16,7 @@ NAME_CLASSES = {
     'digit': ('1ab', '2cd'),
     'underscore': ('_ab', '_cd'),
     'space': ('a b', 'c d e'),
-    'punct': ('a-b', 'a(b)', 'a,b', 'a#b', "a'b", 'a:b', 'a/b', 'a+b', 'a=b', 'a!b', 'a|b', 'a&b;c', '[ab]', '{ab}'),
+    'punct': ('a-b', 'a(b)', 'a,b', 'a#b', "a'b", 'a:b', 'a/b', 'a+b', 'a=b', 'a!b', 'a|b', 'a&b;c', '[ab]', '{ab}', 'a[3,]', 'a, }', 'x,}', 'a[ 2 ]', 'a,  b', 'x" ]'),
     'uvlkw': ('or', 'features', 'mandatory', 'constraints', 'true', 'Boolean', 'sum', 'as', 'alternative', 'optional',
               'namespace', 'imports', 'include', 'cardinality', 'Integer', 'String', 'Real', 'false', 'avg', 'len',
               'floor', 'ceil', 'requires', 'excludes', 'abstract'),
